@@ -211,6 +211,8 @@ type runner struct {
 	n    *recNotifier
 	st   queue.Store
 	dead bool // model and implementation diverged beyond repair: stop this history
+	// packet identifiers whose in-flight entry the queue sacrificed: the client may still acknowledge them
+	sacrificed []uint16
 }
 
 func (rn *runner) viol(kind, what string, extra map[string]any) {
@@ -436,6 +438,9 @@ func (rn *runner) doAdd(o qop) {
 	if victim == ne {
 		rn.setLedger(ne.Payload, "dropped")
 		return
+	}
+	if victim.ID != 0 {
+		rn.sacrificed = append(rn.sacrificed, victim.ID)
 	}
 	m.remove(victim)
 	if !victim.Pubrel {
@@ -920,6 +925,10 @@ func (rn *runner) runRandom(rng *rand.Rand, capacity, inflExp, nops int) {
 	g := &genCfg{rng: rng, noBig: rn.fac.Name != "mem"}
 	limits := [][]uint32{{math.MaxUint32}, {math.MaxUint32, 120}, {120, 300}}[rng.Intn(3)]
 	for i := 0; i < nops && !rn.dead; i++ {
+		if len(rn.sacrificed) > 0 {
+			g.stale = append(g.stale, rn.sacrificed...)
+			rn.sacrificed = nil
+		}
 		rn.step(g.next(rn.m, limits))
 		rn.r.Distinct("model_states", rn.m.state())
 	}
